@@ -1,3 +1,11 @@
 import CheetahModel.Properties.C13
 #print axioms C13.converter_table_eq_spec
 #print axioms C13.elegant_cavity_convention
+#print axioms C13.continuation_passes_are_modelled
+#print axioms C13.continuation_blocks
+#print axioms C13.continuation_keeps_text
+#print axioms C13.continuation_removes_only_marks
+#print axioms C13.continuation_identity
+#print axioms C13.continuation_never_grows
+#print axioms C13.cleaned_lines
+#print axioms C13.rpn_is_infix
